@@ -1,5 +1,5 @@
 From Coq Require Import List Arith Bool Lia.
-From KV Require Import Base.Sx Model.LazyInit.
+From KV Require Import Base.Sx Gen.Generated Model.LazyInit.
 Import ListNotations.
 Close Scope Z_scope.
 Open Scope nat_scope.
@@ -148,8 +148,11 @@ Qed.
 
 (* ---------- lazy initialisation ---------- *)
 Variable s0 : S.
+(* keep = true: the site never clears its source, which therefore stays available *)
+Variable keep : bool.
 Definition lazy_ok (sh : shared) : Prop :=
-  (cell sh = None /\ src sh = Some s0 /\ ncomp sh = 0) \/ (cell sh = Some (f s0) /\ ncomp sh = 1).
+  (cell sh = None /\ src sh = Some s0 /\ ncomp sh = 0)
+  \/ (cell sh = Some (f s0) /\ ncomp sh = 1 /\ (keep = true -> src sh = Some s0)).
 
 (* the sequential contract of a lazily-initialising body *)
 Definition serial_ok (body : list instr) : Prop :=
@@ -192,3 +195,143 @@ Proof.
 Qed.
 
 End Proofs.
+
+(* ---------- the translated sites satisfy the sequential contract (re-checked on every run) ---------- *)
+Ltac solve_serial :=
+  let sh := fresh "sh" in let H := fresh "H" in
+  intros sh H; destruct sh as [c s n];
+  destruct H as [(Hc & Hs & Hn)|(Hc & Hn & Hk)]; cbn [cell src ncomp] in *;
+  try (specialize (Hk eq_refl)); subst;
+  eexists; eexists; (split; [cbv; reflexivity|]);
+  (split; [right; repeat split; try reflexivity; let HH := fresh in intros HH; (discriminate HH || reflexivity)|split; reflexivity]).
+
+Lemma site_dask_serial_ok S V (f : S -> V) s0 : serial_ok S V f s0 false site_dask.
+Proof. solve_serial. Qed.
+Lemma site_spw_serial_ok S V (f : S -> V) s0 : serial_ok S V f s0 true site_spw.
+Proof. solve_serial. Qed.
+Lemma site_sensor_get_serial_ok S V (f : S -> V) s0 : serial_ok S V f s0 true site_sensor_get.
+Proof. solve_serial. Qed.
+
+Lemma sites_locked :
+  site_dask_locked = true /\ site_spw_locked = true /\ site_sensor_get_locked = true /\
+  sensor_setitem_locked = true /\ sensor_delitem_locked = true /\ sensor_contains_locked = true /\
+  pool_get_locked = true /\ pool_put_locked = true /\ sensor_lock_reentrant = true.
+Proof. repeat split; reflexivity. Qed.
+
+(* without the lock the same body is NOT safe: two threads, one schedule *)
+Lemma unlocked_refuted :
+  exists schedule t, c_th (exec_nolock nat nat Datatypes.S site_dask (mkSh None (Some 41) 0) schedule) t = Failed.
+Proof. exists [0;1;1;0;0;0;0;0;0;0;1], 1. vm_compute. reflexivity. Qed.
+
+(* ---------- re-entrant lock ---------- *)
+Lemma rlock_reentrancy t d :
+  r_acquire (Some (t, d)) t = Some (Some (t, Datatypes.S d)) /\
+  r_release (Some (t, Datatypes.S (Datatypes.S d))) t = Some (Some (t, Datatypes.S d)) /\
+  r_acquire None t = Some (Some (t, 1)) /\ r_release (Some (t, 1)) t = Some None.
+Proof. unfold r_acquire, r_release. rewrite !Nat.eqb_refl. repeat split; reflexivity. Qed.
+
+Lemma rlock_excludes h t d : h <> t -> r_acquire (Some (h, d)) t = None /\ r_release (Some (h, d)) t = None.
+Proof. intros H. unfold r_acquire, r_release. apply Nat.eqb_neq in H. rewrite H. split; reflexivity. Qed.
+
+(* ---------- pool ---------- *)
+Definition pool_inv (p : pool) : Prop :=
+  NoDup (p_free p ++ map snd (p_held p)) /\ forall x, In x (p_free p ++ map snd (p_held p)) -> x < p_next p.
+
+Lemma in_rm_held t x l y : In y (map snd (rm_held t x l)) -> In y (map snd l).
+Proof.
+  induction l as [|h r IH]; simpl; [auto|].
+  destruct (Nat.eqb (fst h) t && Nat.eqb (snd h) x)%bool; simpl; [auto|]. intros [H|H]; auto.
+Qed.
+
+Lemma nodup_rm_held t x l : NoDup (map snd l) -> NoDup (map snd (rm_held t x l)).
+Proof.
+  induction l as [|h r IH]; simpl; intros H; [constructor|].
+  inversion H as [|? ? Hn Hr]; subst.
+  destruct (Nat.eqb (fst h) t && Nat.eqb (snd h) x)%bool; [exact Hr|]. simpl. constructor.
+  - intros Hin. apply Hn. eapply in_rm_held. exact Hin.
+  - apply IH. exact Hr.
+Qed.
+
+Lemma rm_held_removes t x l : NoDup (map snd l) -> In (t, x) l -> ~ In x (map snd (rm_held t x l)).
+Proof.
+  induction l as [|h r IH]; simpl; intros ND Hin; [contradiction|].
+  inversion ND as [|? ? Hn Hr]; subst.
+  destruct Hin as [->|Hin].
+  - simpl. rewrite !Nat.eqb_refl. simpl. exact Hn.
+  - destruct (Nat.eqb (fst h) t && Nat.eqb (snd h) x)%bool eqn:E.
+    + apply andb_true_iff in E. destruct E as [_ E]. apply Nat.eqb_eq in E.
+      exfalso. apply Hn. rewrite E. exact (in_map snd r (t, x) Hin).
+    + simpl. intros [H|H].
+      * apply Hn. rewrite H. exact (in_map snd r (t, x) Hin).
+      * apply (IH Hr Hin H).
+Qed.
+
+Lemma find_held_in t (l : list (nat * nat)) x' t' : find (fun h => Nat.eqb (fst h) t) l = Some (t', x') -> In (t, x') l /\ t' = t.
+Proof.
+  induction l as [|h r IH]; simpl; [discriminate|].
+  destruct (Nat.eqb (fst h) t) eqn:E.
+  - intros H. injection H as ->. apply Nat.eqb_eq in E. simpl in E. subst. split; [left; reflexivity|reflexivity].
+  - intros H. destruct (IH H) as [A B]. split; [right; exact A|exact B].
+Qed.
+
+Lemma nodup_app_iff {A} (a b : list A) :
+  NoDup (a ++ b) <-> NoDup a /\ NoDup b /\ (forall x, In x a -> ~ In x b).
+Proof.
+  induction a as [|h a IH]; simpl.
+  - split; [intros H; repeat split; [constructor|exact H|intros x []]|intros (_ & H & _); exact H].
+  - split.
+    + intros H. inversion H as [|? ? Hn Hr]; subst. apply IH in Hr. destruct Hr as (Ha & Hb & Hd).
+      repeat split; [constructor; [intros Hin; apply Hn; apply in_or_app; left; exact Hin|exact Ha]|exact Hb|].
+      intros x [<-|Hx] Hxb; [apply Hn; apply in_or_app; right; exact Hxb|exact (Hd x Hx Hxb)].
+    + intros (Ha & Hb & Hd). inversion Ha as [|? ? Hn Hr]; subst. constructor.
+      * intros Hin. apply in_app_or in Hin. destruct Hin as [Hin|Hin]; [exact (Hn Hin)|exact (Hd h (or_introl eq_refl) Hin)].
+      * apply IH. repeat split; [exact Hr|exact Hb|intros x Hx; apply Hd; right; exact Hx].
+Qed.
+
+Lemma pool_step_inv p o : pool_inv p -> pool_inv (pool_step p o).
+Proof.
+  intros [ND Hlt]. destruct o as [t|t]; simpl.
+  - destruct (rev (p_free p)) as [|x r] eqn:E.
+    + assert (p_free p = []) as Ef by (apply (f_equal (@rev nat)) in E; rewrite rev_involutive in E; exact E).
+      rewrite Ef in *. simpl in *. split; simpl.
+      * constructor; [|exact ND]. intros Hin. specialize (Hlt _ Hin). lia.
+      * intros y [<-|Hy]; [lia|]. specialize (Hlt _ Hy). lia.
+    + assert (p_free p = rev r ++ [x]) as Ef
+        by (apply (f_equal (@rev nat)) in E; rewrite rev_involutive in E; simpl in E; exact E).
+      rewrite Ef in *. split; simpl.
+      * apply nodup_app_iff in ND. destruct ND as (Hf & Hh & Hd).
+        apply nodup_app_iff in Hf. destruct Hf as (Hr & _ & Hrx).
+        apply nodup_app_iff. repeat split.
+        -- exact Hr.
+        -- constructor; [|exact Hh]. intros Hin. apply (Hd x); [apply in_or_app; right; left; reflexivity|exact Hin].
+        -- intros y Hy [Hxy|Hy2]; [subst y; apply (Hrx x Hy); left; reflexivity|].
+           apply (Hd y); [apply in_or_app; left; exact Hy|exact Hy2].
+      * intros y Hy. apply Hlt. rewrite <- app_assoc. simpl.
+        apply in_app_or in Hy. apply in_or_app. destruct Hy as [Hy|[<-|Hy]]; [left; exact Hy|right; left; reflexivity|right; right; exact Hy].
+  - destruct (find (fun h => Nat.eqb (fst h) t) (p_held p)) as [[t' x]|] eqn:F; [|split; assumption].
+    destruct (find_held_in _ _ _ _ F) as [Hin _]. simpl.
+    apply nodup_app_iff in ND. destruct ND as (Hf & Hh & Hd).
+    assert (Hxh : In x (map snd (p_held p))) by exact (in_map snd (p_held p) (t, x) Hin).
+    split.
+    + apply nodup_app_iff. repeat split.
+      * apply nodup_app_iff. repeat split; [exact Hf|constructor; [intros []|constructor]|].
+        intros y Hy [Hxy|[]]. subst y. exact (Hd x Hy Hxh).
+      * apply nodup_rm_held. exact Hh.
+      * intros y Hy Hy2. apply in_app_or in Hy. destruct Hy as [Hy|[Hxy|[]]].
+        -- apply (Hd y Hy). eapply in_rm_held. exact Hy2.
+        -- subst y. exact (rm_held_removes t x (p_held p) Hh Hin Hy2).
+    + intros y Hy. apply Hlt. apply in_app_or in Hy. apply in_or_app. destruct Hy as [Hy|Hy].
+      * apply in_app_or in Hy. destruct Hy as [Hy|[Hxy|[]]]; [left; exact Hy|subst y; right; exact Hxh].
+      * right. eapply in_rm_held. exact Hy.
+Qed.
+
+Lemma pool_inv_init : pool_inv pool_init.
+Proof. split; simpl; [constructor|intros x []]. Qed.
+
+(* every reachable pool state: no item is held twice or both held and free; items are conserved *)
+Theorem pool_exclusive ops : pool_inv (fold_left pool_step ops pool_init).
+Proof.
+  generalize pool_inv_init. generalize pool_init.
+  induction ops as [|o ops IH]; intros p H; simpl; [exact H|]. apply IH. apply pool_step_inv. exact H.
+Qed.
+
